@@ -459,3 +459,6 @@ pub mod tracing;
 
 #[cfg(feature = "dev-hooks")]
 pub mod dev_hooks;
+
+#[cfg(nexosim_verif)]
+pub mod verif_hooks;
